@@ -53,6 +53,28 @@ KINDS = ('Identical', 'Add', 'Remove')
 SCRIPT_FULL = 'include <diff.bare>\nreturn diffLines(l, r)'
 SCRIPT_INCLUDE = 'include <diff.bare>'
 SCRIPT_CALL = 'return diffLines(l, r)'
+# the call made from a script with control flow of its own (a helper with an if, a loop and an if/else whose jumps are taken BEFORE
+# the call): the generated label names of the caller and of diff.bare coincide, and must not be confused
+SCRIPT_EMBEDDED = '''\
+function pick(m):
+    if m == 'x':
+        return 1
+    endif
+    return 2
+endfunction
+n = 0
+while n < 2:
+    n = n + 1
+endwhile
+include <diff.bare>
+if pick(mode) == 1:
+    d = diffLines(l, r)
+else:
+    for unused in arrayNew(1, 2):
+        d = diffLines(l, r)
+    endfor
+endif
+return d'''
 
 
 # ---------------------------------------------------------------------------------------------------------------------
@@ -68,6 +90,7 @@ class Runner:
         m = fw.impl()
         self.parser, self.runtime, self.bare = m['parser'], m['runtime'], m['bare']
         self.full = None
+        self.emb = None
         self.call = None
         self.globals = None
         self.overruns = 0
@@ -89,6 +112,19 @@ class Runner:
                 self.full = self.parser.parse_script(SCRIPT_FULL)
             return canon(self.runtime.execute_script(self.full, self._options({'l': clone(left), 'r': clone(right)},
                                                                               statement_budget(left, right))))
+        except Exception as exc:  # pylint: disable=broad-except
+            return self._error(exc)
+
+    def embedded(self, left, right, mode=None):
+        if self.overruns >= MAX_OVERRUNS:
+            return SKIPPED
+        try:
+            if self.emb is None:
+                self.emb = self.parser.parse_script(SCRIPT_EMBEDDED)
+            if mode is None:
+                mode = 'x' if (len(left) + len(right)) % 2 else 'y'
+            return canon(self.runtime.execute_script(self.emb, self._options({'l': clone(left), 'r': clone(right), 'mode': mode},
+                                                                             2 * statement_budget(left, right) + 100)))
         except Exception as exc:  # pylint: disable=broad-except
             return self._error(exc)
 
@@ -391,7 +427,9 @@ def stream_inputs(ctx, runner):
 
 def stream_cli_path(ctx, runner, kmax):
     st = ctx.stream('diff-cli', 'ALL pairs of line lists of length <= %d over {a,b,c}, every pair through the full CLI path (include fetched, '
-                                'parsed and executed afresh): must equal the model and the shared-globals run; non-trivial as in `diff`' % kmax)
+                                'parsed and executed afresh): must equal the model and the shared-globals run; and once more called from a script '
+                                'with control flow of its own (helper with an if, a while loop, an if/else and a for loop around the call, '
+                                'jumps taken before the call): same oracle and model; non-trivial as in `diff`' % kmax)
     lists = all_lists(kmax)
     pairs = [(l, r) for l in lists for r in lists]
     models = [None] * len(pairs)
@@ -405,6 +443,7 @@ def stream_cli_path(ctx, runner, kmax):
         again = runner.shared(left, right)
         if again is not SKIPPED:
             ctx.compare('diff-cli', {'left': left, 'right': right, 'mode': 'fresh-vs-shared'}, impl, again)
+        check_case(ctx, 'diff-cli', runner.embedded, (left, right), model, 'embedded')
         st.case([left, right], nontrivial=bool(left) and bool(right) and left != right,
                 tags=['blocks=%s' % (len(impl) if isinstance(impl, list) else 'error')])
     st.exhaustive = 'skipped' not in st.hist
@@ -514,7 +553,7 @@ def search(ctx):
             return
     for d in ctx.disagreements:
         if d and isinstance(d.get('case'), dict) and 'left' in d['case']:
-            for fn, mode in ((runner.fresh, 'fresh'), (runner.shared, 'shared')):
+            for fn, mode in ((runner.fresh, 'fresh'), (runner.shared, 'shared'), (runner.embedded, 'embedded')):
                 if try_case(d['case']['left'], d['case']['right'], fn, mode):
                     return
     for _, left, right in input_cases(ctx):
@@ -545,7 +584,7 @@ def replay(witness):
         rows = [r for r in include_facts() if r['name'] == inp['include']]
         return not rows or include_bad(rows[0])
     runner = Runner()
-    fn = runner.shared if inp.get('mode') == 'shared' else runner.fresh
+    fn = {'shared': runner.shared, 'embedded': runner.embedded}.get(inp.get('mode'), runner.fresh)
     return oracle(inp['left'], inp['right'], fn(inp['left'], inp['right'])) is not None
 
 
